@@ -8,6 +8,7 @@ head = subprocess.run(['git','-C','/repo','rev-parse','--short','HEAD'],capture_
 origin = {
  '8': "written by a fresh sub-agent (eighth round: only the property text and its own scratch worktree of /repo; asked for (a) two cooperating sites that are each harmless alone, (b) a multi-step sequence of calls in one process or directory, or (c) a fault / unusual object at one particular moment; nothing from /verif)",
  '10': "written by a fresh sub-agent (tenth round, a final generalisation sample: only the property text and its own scratch worktree of /repo, an unconstrained prompt asking for the promise and mechanism least likely to be watched; nothing from /verif)",
+ '11': "written by a fresh sub-agent (eleventh round, generalisation sample for the seven properties round 10 had left out: only the property text and its own scratch worktree of /repo; asked to list the promises and break the one least likely to be watched, in a way that needs a fault at a point, a sequence of calls, an interleaving, an unusual input corner or two cooperating sites; nothing from /verif)",
  '9': "written by a fresh sub-agent (ninth round; only the property text and its own scratch worktree of /repo; nothing from /verif)",
 }
 for l in open(log):
